@@ -266,6 +266,16 @@ Theorem C15_decode_encode_dotted_prefix :
 Proof. exact decode_encode_dotted_prefix. Qed.
 Print Assumptions C15_decode_encode_dotted_prefix.
 
+(* Truncated names stay visibly marked when expanded: for ALL counter names and
+   frames, the expansion of a truncated name still ends with the marker
+   (newline truncated newline) - the final empty line is kept. *)
+Theorem C15_decode_truncated_keeps_marker :
+  forall (prefix : bytes) (fs : list frame),
+  is_truncated prefix fs = true ->
+  exists body, decode_stack (encode_frames prefix fs) = body ++ c_truncated_marker.
+Proof. exact decode_truncated_keeps_marker. Qed.
+Print Assumptions C15_decode_truncated_keeps_marker.
+
 (* ---- "is the identity on ordinary counter names" *)
 Theorem C15_decode_identity_on_plain :
   forall s : bytes, is_stack s = false -> decode_stack s = s.
